@@ -420,7 +420,12 @@ pub fn for_each_tree(sc: &TreeScope, st: &mut Striper, visit: &mut dyn FnMut(&Te
     };
     for_each_replset(&rs1, &mut |set| {
       if st.mine() {
-        visit(&Term::cached(Term::replace(c.clone(), set)));
+        visit(&Term::cached(Term::replace(c.clone(), set.clone())));
+      }
+      // a replacement above a cache above a multi-piece rope: once warm, the cache replays its
+      // map over rope(), and ReplaceSource is handed chunks that span several pieces
+      if matches!(c, Term::Concat { .. }) && st.mine() {
+        visit(&Term::replace(Term::cached(c.clone()), set));
       }
     });
   }
